@@ -100,6 +100,9 @@ func c01Case(t *rapid.T, ev *evProp, gi *GroupInfo) {
 		}
 	}
 	nontrivial := isEdgeClass(a.Class) || isEdgeClass(b.Class) || P.Edge || Q.Edge || R.Edge || P.NonN || Q.NonN || R.NonN || Q.Class == "same"
+	if why := constantsIntact(gi); why != "" {
+		violationOrKnown(t, ev, "C01/"+gi.Name+"/constant-corrupted", "a group constant has changed: %s\n%s", why, l.ctx)
+	}
 	ev.Case(nontrivial, l.ctx, "group:"+gi.Name, "a:"+a.Class, "b:"+b.Class, "P:"+P.Class, "Q:"+Q.Class)
 }
 
